@@ -13,7 +13,9 @@ ELB = {"i8": 1, "i32": 4, "i64": 8, "i4": 1, "i12": 2}
 
 
 class AllocGen:
-    def __init__(self, rng, views=True, two_mem=False, odd_align=False, dyn_allocs=0.0):
+    def __init__(self, rng, views=True, two_mem=False, odd_align=False, dyn_allocs=0.0, ptr_uses=0.0):
+        self.ptr_uses = ptr_uses  # raw addresses taken from buffers (memref.extract_aligned_pointer_as_index) and used later
+        self.ptrs: list[str] = []
         self.dyn_allocs = dyn_allocs  # share of the buffers whose size is only known at run time (judged statically only)
         self.two_mem = two_mem
         self.odd_align = odd_align  # alignments that are not powers of two (and do not divide each other)
@@ -36,7 +38,7 @@ class AllocGen:
     def use(self):
         self.tag += 1
         k = 1 if self.r.random() < 0.8 else 2
-        bufs = [self.r.choice(self.refs + self.unranked) for _ in range(k)]
+        bufs = [self.r.choice(self.refs + self.unranked + self.ptrs) for _ in range(k)]
         # make sure every alloc gets at least one use (an unused alloc makes MiniMallocate raise StopIteration)
         if self.unused:
             bufs[0] = sorted(self.unused)[0]
@@ -49,6 +51,16 @@ class AllocGen:
         r = self.r
         w = [3 if depth == 0 else 0, 5 if self.refs else 0, (2 if self.views_on and self.allocs and depth == 0 else 0), (1 if self.views_on and self.refs and depth == 0 else 0), 1 if depth < 2 and self.refs else 0, 1 if depth < 2 and self.refs else 0, (4 if self.views_on and len(self.refs) >= 2 and depth == 0 else 0)]
         k = r.choices(["alloc", "use", "view", "cast", "for", "if", "select"], w)[0]
+        if self.ptr_uses and depth == 0 and r.random() < self.ptr_uses:
+            direct = [x for x in self.refs if isinstance(self.site_of[x], int) and "*" not in self.types[x]]
+            if direct:
+                # the raw address of a buffer, as an index: what a DMA call or an accelerator setup is given
+                src = r.choice(direct)
+                nm = self.fresh("q")
+                self.types[nm] = "index"
+                self.site_of[nm] = self.site_of[src]
+                self.ptrs.append(nm)
+                return {"k": "ptr", "name": nm, "src": src}
         if k == "select":
             # a join: one value that is one of two buffers (same type) depending on a run-time condition
             a = r.choice(self.refs)
@@ -246,6 +258,8 @@ def emit(ast, p=(0, 0), fname="f", wrap=True) -> str:
                     e(ind, "}")
                 else:
                     e(ind, f'{s["name"]} = arith.select %p{s["cond"]}, {s["a"]}, {s["b"]} : {T[s["name"]]}')
+            elif k == "ptr":
+                e(ind, f'{s["name"]} = "memref.extract_aligned_pointer_as_index"({s["src"]}) : ({T[s["src"]]}) -> index')
             elif k == "use":
                 sites = ", ".join(f"{x} : i64" for x in (joined.get(b, x_) for b, x_ in zip(s["bufs"], s["sites"])))
                 e(ind, f'"test.op"({", ".join(s["bufs"])}) {{vtag = {s["tag"]} : i64, vsites = [{sites}]}} : ({", ".join(T[b] for b in s["bufs"])}) -> ()')
